@@ -74,8 +74,11 @@ class Expr(core.Expr):
     _filter_passthrough = False
 
     def _filter_passthrough_available(self, parent, dependents):
-        return self._filter_passthrough and is_filter_pushdown_available(
-            self, parent, dependents
+        return (
+            self._filter_passthrough
+            # we have to be the filtered frame, not (part of) the predicate
+            and parent.frame._name == self._name
+            and is_filter_pushdown_available(self, parent, dependents)
         )
 
     @functools.cached_property
